@@ -725,14 +725,25 @@ def gen_align_event(rng, sysd, negative=False):
     elif k == 'arb':
         d = gen_arb(rng, sysd)
     elif k == 'rf':
-        d = {'kind': 'rf', 'flip': 0.5, 'dur': rng.randint(10, 300) * 1e-5, 'delay': rng.choice([0.0, 1e-4, 3.5e-4])}
+        # RF on the 1 us RF raster: odd numbers of microseconds
+        fine = rng.random() < 0.5
+        d = {'kind': 'rf', 'flip': 0.5, 'dur': (rng.randint(100, 3000) * 1e-6) if fine else rng.randint(10, 300) * 1e-5,
+             'delay': rng.choice([0.0, 1e-4, 3.5e-4, 1.27e-4, 3e-6])}
     elif k == 'adc':
-        d = {'kind': 'adc', 'num': rng.choice([16, 64, 100]), 'dwell': rng.choice([1e-5, 4e-6, 2.5e-6]),
-             'delay': rng.choice([0.0, 2e-5, 1.3e-4])}
+        # ADC on the 100 ns / 1 us ADC raster with odd sample counts: lengths that are odd numbers of microseconds or
+        # not even whole microseconds, so that the free space in the block is not a multiple of 2 us
+        if rng.random() < 0.5:
+            d = {'kind': 'adc', 'num': rng.choice([16, 64, 100]), 'dwell': rng.choice([1e-5, 4e-6, 2.5e-6]),
+                 'delay': rng.choice([0.0, 2e-5, 1.3e-4])}
+        else:
+            d = {'kind': 'adc', 'num': rng.choice([1, 3, 33, 101, 127, 255, rng.randint(1, 300)]),
+                 'dwell': rng.choice([5e-6, 1e-6, 3e-6, 2.5e-6, 1.3e-6, 7e-7, rng.randint(1, 99) * 1e-7]),
+                 'delay': rng.choice([0.0, 2e-5, 7e-6, 1.5e-6, rng.randint(0, 500) * 1e-7])}
     elif k == 'delay':
-        d = {'kind': 'delay', 'delay': rng.randint(1, 400) * 1e-5}
+        d = {'kind': 'delay', 'delay': rng.randint(1, 400) * 1e-5 if rng.random() < 0.5 else rng.randint(1, 40000) * 1e-7}
     else:
-        d = {'kind': k, 'delay': rng.choice([0.0, 5e-5]), 'dur': rng.randint(1, 100) * 1e-5}
+        d = {'kind': k, 'delay': rng.choice([0.0, 5e-5, 3e-6]),
+             'dur': rng.randint(1, 100) * 1e-5 if rng.random() < 0.5 else rng.randint(1, 999) * 1e-6}
     if negative and k in ('rf', 'adc') and rng.random() < 0.7:
         d['force_delay'] = -rng.randint(1, 30) * 1e-5
     return d
@@ -806,13 +817,19 @@ def run_align(ctx, cases):
             if negtotal and not invalid:
                 # malformed input (an event ending before t = 0): calc_duration clamps at 0; model agreement only
                 ctx.count('align.negative-total.model-only')
-                lines.append(line)
-                keep.append((c, out, err))
+                Dn = max([Fraction(0)] + [l + dl for l, dl in zip(lens, delays)])
+                edge = any(s == 'right' and abs(Dn - max(Fraction(0), l + dl) + dl) <= Fraction(1, 10 ** 9)
+                           for (s, _), l, dl in zip(flat, lens, delays))
+                if not edge:      # the sign of a right-aligned delay of ~0 is decided in binary64 by the code
+                    lines.append(line)
+                    keep.append((c, out, err))
                 continue
             D = max([Fraction(0)] + [l + dl for l, dl in zip(lens, delays)])
             want = [Fraction(0) if s == 'left' else (D - l) / 2 if s == 'center' else D - l
                     for (s, _), l in zip(flat, lens)] if not invalid else []
             tol = Fraction(1, 10 ** 12)
+            if any(s == 'center' and (w * 10 ** 6).denominator != 1 for (s, _), w in zip(flat, want)):
+                ctx.count('align.centre_delay_not_a_whole_microsecond')
             must_fail = invalid or any(s == 'right' and w < -Fraction(1, 10 ** 9) for (s, _), w in zip(flat, want))
             near = (not invalid) and any(s == 'right' and abs(w) <= Fraction(1, 10 ** 9) and w != 0
                                          for (s, _), w in zip(flat, want))
